@@ -394,6 +394,11 @@ def configs(tier):
            (exchange, dict(n=3, m=4, pad=2)),
            (gap_step, dict(present=(1,), types='c')), (gap_step, dict(present=(1, 1, 1), types='acU')),
            (gap_step, dict(present=(1, 1, 0, 1, 0, 0, 1), types='acab')), (gap_step, dict(present=full, types='abUcabU'))]
+    if tier == 'thorough':
+        out += [(region_step, dict(n_ring=4)), (region_step, dict(n_ring=3, n_duct=3)), (region_step, dict(n_ring=3, n_duct=2, adiabatic=True)),
+                (exchange, dict(n=4, m=3)), (exchange, dict(n=3, m=5)), (glue, dict(n_duct_cells=3, n_gap_cells=5)),
+                (gap_step, dict(present=full, types='ceUaceb')),
+                (gap_step, dict(present=(1,) * 7 + (1, 0, 1, 1, 0, 0, 1, 1, 0, 1, 0, 1), types='aUcaUcaUcaUcaU'[:14]))]
     return out
 
 
